@@ -140,7 +140,9 @@ def case_opt(col, p):
             p0 = np.array([[lo * 1.05 if lo > 0 else lo + 0.05 * (up - lo), math.sqrt(lo * up) if lo > 0 else 0.5 * (lo + up),
                             up * 0.95 if lo > 0 else up - 0.05 * (up - lo)][c]
                            for lo, up, c in zip(lower, upper, start_code)])
-            fixedvals = [(float(np.sqrt(lo * up)) * 1.1 if lo > 0 else 0.4 * lo) if f else None for f, lo, up in zip(fixed_mask, lower, upper)]
+            # the fixed VALUES change from run to run within this process (same pattern of fixed positions): a likelihood profile does the same
+            fv_fac = 1.0 + 0.03 * (sum(start_code) % 3)
+            fixedvals = [(float(np.sqrt(lo * up)) * 1.1 * fv_fac if lo > 0 else 0.4 * lo * fv_fac) if f else None for f, lo, up in zip(fixed_mask, lower, upper)]
             fixed = fixedvals if any(fixed_mask) else None
             record.clear()
             lower_l, upper_l = list(lower), list(upper)
